@@ -167,3 +167,64 @@ package hsrv
 //@   on enter bytes.Buffer.WriteTo(bb, w0): assert(bb == b && boxes(w0, w) && nExec == 1 && !execErr && nHeader == 0, "body_only_from_the_successfully_executed_buffer"); nBody++
 //@   ensures error_status_no_script: imp(tmplErr || c2Err || execErr, nBody == 0 && nHeader == 1 && code >= 400)
 //@   ensures script_once: imp(!tmplErr && !c2Err && !execErr, nBody == 1 && nExec == 1)
+
+// ---- server construction and one-liners (C05, C12, C20)
+//@ func New(sl, addr, fdir, tmplf, ich, och, iob, certFile, cbAddrs, printIPv6, oneShell) (srv, err)
+//@   props C05 C12 C20
+//@   nilable ich, och, iob
+//@   ghost lfp string = ""
+//@   ghost listenErr bool = false
+//@   ghost nListen int = 0
+//@   ghost nClose int = 0
+//@   ghost nLines int = 0
+//@   on call sstls.Listen(n, a, sub, life, cf) (ll, e): assert(cf == certFile, "certificate_cache_path_passed_on"); lfp = ll.Fingerprint; listenErr = e != nil; nListen++
+//@   on enter net.Listener.Close(ll): nClose++
+//@   on enter fmt.Fprintf(wr, f, v): assert(f == CurlFormat + ShellSuffix + "\n" && boxes(v[0], s.l.Fingerprint) && s.l.Fingerprint == lfp && boxes(v[1], la), "shell_one_liner_shows_listener_fingerprint_and_address"); nLines++
+//@   ensures error_means_no_server: imp(err != nil, srv == nil)
+//@   ensures listen_failure_reported: imp(listenErr, err != nil)
+//@   ensures listener_closed_on_later_failure: imp(err != nil && !listenErr, nClose == 1) && imp(err == nil || listenErr, nClose == 0)
+//@   ensures fields: imp(err == nil, srv != nil && srv.l.Fingerprint == lfp && srv.oneShell == oneShell && srv.fdir == fdir && srv.tmplf == tmplf && srv.sl == sl && srv.iob == iob && srv.och == och && nListen == 1)
+
+//@ func Server.printCallbackHelp(s)
+//@   props C05
+//@   ghost n int = 0
+//@   on enter Server.Printf(ss, c, f, v): assert(ss == s && f == "%s" && boxes(v[0], s.cbHelp), "reprints_the_help_built_by_New"); n++
+//@   ensures once: n == 1
+
+// watchIOBEvents: the listener is closed iff a connected event arrives and
+// -one-shell is set; the help is re-printed iff a shell died and it is not.
+//@ func Server.watchIOBEvents(s, ctx, evCh)
+//@   props C12 C04 C05
+//@   assumes listening: s.l.Listener != nil
+//@   ghost pending bool = false
+//@   ghost ptype iobroker.EventType = ""
+//@   ghost closed bool = false
+//@   ghost helped bool = false
+//@   ghost nCloseTotal int = 0
+//@   on recv evCh(e, ok): assert(imp(pending && ptype == iobroker.EventTypeConnected && s.oneShell, closed) && imp(pending && ptype == iobroker.EventTypeDisconnected && !s.oneShell, helped), "previous_event_handled"); pending = ok; ptype = e.Type; closed = false; helped = false
+//@   on enter net.Listener.Close(l): assert(pending && ptype == iobroker.EventTypeConnected && s.oneShell && !closed && l == s.l.Listener, "listener_closed_only_on_full_shell_with_one_shell"); closed = true; nCloseTotal++
+//@   on enter Server.printCallbackHelp(ss): assert(pending && ptype == iobroker.EventTypeDisconnected && !s.oneShell && !helped, "help_reprinted_only_after_shell_died_without_one_shell"); helped = true
+//@   loop 1
+//@     invariant handled: imp(pending && ptype == iobroker.EventTypeConnected && s.oneShell, closed) && imp(pending && ptype == iobroker.EventTypeDisconnected && !s.oneShell, helped)
+//@   ensures handled_at_exit: imp(pending && ptype == iobroker.EventTypeConnected && s.oneShell, closed) && imp(pending && ptype == iobroker.EventTypeDisconnected && !s.oneShell, helped)
+
+//@ func Server.serveHTTP(s, ctx) (err)
+//@   props C12
+//@   ghost nShutdown int = 0
+//@   on enter http.Server.Shutdown(h, c): nShutdown++
+//@   on enter http.Server.Close(h): assert(false, "server_is_never_closed_abruptly")
+//@   ensures graceful_shutdown_once: nShutdown == 1
+
+//@ func Server.serveHTTP#2()
+//@   props C12
+//@   ghost serveErr error = nil
+//@   ghost n int = 0
+//@   on call http.Server.Serve(h, l) (e): serveErr = e
+//@   on send ech(v): assert(imp(errors.Is(serveErr, net.ErrClosed) && s.oneShell, v == ErrOneShellClosed) && imp(!(errors.Is(serveErr, net.ErrClosed) && s.oneShell), v == serveErr), "closed_listener_with_one_shell_is_the_expected_end"); n++
+//@   ensures reported_once: n == 1
+
+// Do: the file one-liners show the listener's fingerprint.
+//@ func Server.Do(s, ctx) (err)
+//@   props C05
+//@   nosafety
+//@   on enter Server.Printf(ss, c, f, v): if f == CurlFormat + FileSuffix { assert(boxes(v[0], s.l.Fingerprint), "file_one_liner_shows_listener_fingerprint") }
